@@ -343,7 +343,8 @@ def gen_ops(rng, initial, length, kinds=OP_KINDS):
         if op['k'] in ('copy', 'deepcopy') and rng.random() < 0.5:
             # nobody looks at the copy before it is changed: the first access of the fresh copy is a mutation
             op['silent'] = True
-            nxt = gen_op(rng, len(states), lambda i: states[i], [k for k in kinds if k not in ('copy', 'deepcopy', 'read', 'write')] or kinds)
+            # (generated against the state of the copy itself: 'remove' and 'pop' name objects it holds)
+            nxt = gen_op(rng, len(states), lambda i: states[-1], [k for k in kinds if k not in ('copy', 'deepcopy', 'read', 'write')] or kinds)
             nxt['on'] = len(states) - 1
             ops.append(nxt)
             ref_apply(states, nxt)
